@@ -38,6 +38,17 @@ def seed_all(seed: int):
     torch.manual_seed(seed)
 
 
+_SKEL = {}
+
+
+def _skeleton(n):
+    import sleap_io as sio
+
+    if n not in _SKEL:
+        _SKEL[n] = sio.Skeleton(nodes=["n%d" % i for i in range(n)])
+    return _SKEL[n]
+
+
 def predicted_instance(points, score=0.9, point_scores=None, skeleton=None):
     """Build a sio.PredictedInstance with whichever from_numpy signature this sleap-io has."""
     import numpy as np
@@ -46,6 +57,8 @@ def predicted_instance(points, score=0.9, point_scores=None, skeleton=None):
     points = np.asarray(points, dtype="float64")
     if point_scores is None:
         point_scores = np.ones(len(points))
+    if skeleton is None:
+        skeleton = _skeleton(len(points))
     try:
         return sio.PredictedInstance.from_numpy(
             points_data=points, point_scores=point_scores, score=score, skeleton=skeleton
@@ -65,3 +78,34 @@ def assert_repo():
     p = os.path.realpath(os.path.dirname(os.path.dirname(sleap_nn.__file__)))
     assert p == os.path.realpath(REPO), (p, REPO)
     return p
+
+
+def _compat_sleap_io():
+    """sleap-io 0.9.2 renamed from_numpy(points=, instance_score=) to (points_data=, score=).
+    The repository calls the old names; accept both (environment skew, not a finding)."""
+    import inspect
+    import sleap_io as sio
+
+    for cls in (sio.PredictedInstance, sio.Instance):
+        orig = cls.__dict__.get("from_numpy")
+        if orig is None:
+            continue
+        fn = orig.__func__
+        if "points" in inspect.signature(fn).parameters:
+            continue
+
+        def make(fn):
+            def from_numpy(c, *a, points=None, instance_score=None, **kw):
+                if points is not None:
+                    kw["points_data"] = points
+                if instance_score is not None:
+                    kw["score"] = instance_score
+                return fn(c, *a, **kw)
+
+            return classmethod(from_numpy)
+
+        setattr(cls, "from_numpy", make(fn))
+
+
+_compat_sleap_io()
+os.environ.setdefault("TORCH_FORCE_NO_WEIGHTS_ONLY_LOAD", "1")
